@@ -190,17 +190,23 @@ def user_caret_section(ctx):
     PARTS = {"classes": "    GlyphClassDef [f i], [f_i f_f_i], , ;\n", "pos": "    LigatureCaretByPos f_i 222;\n",
              "index": "    LigatureCaretByIndex f_i 2;\n"}
     from_anchors = {"f_i": [(1, 260)], "f_f_i": [(1, 200), (1, 400)]}
-    variants = [(), ("classes",), ("pos",), ("index",), ("classes", "index"), ("pos", "index"), ("classes", "pos")]
+    variants = [(), ("classes",), ("pos",), ("index",), ("classes", "index"), ("pos", "index"), ("classes", "pos"),
+                # the user's GDEF table written as TWO table blocks (feaLib merges them): what the user defines does not depend
+                # on which block holds it; here the lib's categories DISAGREE with the user's classes (i: mark vs base)
+                (("pos",), ("classes",)), (("classes",), ("pos",)), (("classes",), ("index",)), (("index",), ("classes", "pos"))]
     for i in range(ctx.budget(len(variants) * 2, len(variants) * 4)):
         v = variants[i % len(variants)]
         lib = ["ufoLib2", "defcon"][(i // len(variants)) % 2]
-        fea = "languagesystem DFLT dflt;\n" + ("table GDEF {\n" + "".join(PARTS[k] for k in v) + "} GDEF;\n" if v else "")
-        desc = {"glyphs": glyphs, "features": fea, "lib": {"public.openTypeCategories": {"f": "base", "i": "base", "f_i": "ligature", "f_f_i": "ligature"}}}
+        split = bool(v) and isinstance(v[0], tuple)
+        blocks = list(v) if split else ([v] if v else [])
+        v = tuple(k for b in blocks for k in b)
+        fea = "languagesystem DFLT dflt;\n" + "".join("table GDEF {\n" + "".join(PARTS[k] for k in b) + "} GDEF;\n" for b in blocks)
+        desc = {"glyphs": glyphs, "features": fea, "lib": {"public.openTypeCategories": {"f": "base", "i": "mark" if split else "base", "f_i": "ligature", "f_f_i": "ligature"}}}
         want = dict(from_anchors)
         if "pos" in v or "index" in v:
             want = {"f_i": ([(1, 222)] if "pos" in v else []) + ([(2, 2)] if "index" in v else [])}
-        case = {"features": fea, "user_gdef_statements": list(v), "lib": lib, "expected_carets": {k: list(x) for k, x in want.items()}}
-        ctx.count(); ctx.klass("user GDEF: " + ("+".join(v) or "no table")); ctx.nontriv(("ucaret", i, ctx.scale))
+        case = {"features": fea, "user_gdef_statements": [list(b) for b in blocks], "lib": lib, "expected_carets": {k: list(x) for k, x in want.items()}}
+        ctx.count(); ctx.klass("user GDEF: " + (" | ".join("+".join(b) for b in blocks) or "no table")); ctx.nontriv(("ucaret", i, ctx.scale))
         try:
             tt = ufo2ft.compileTTF(build_font(desc, lib), useProductionNames=False)
             buf = io.BytesIO(); tt.save(buf); buf.seek(0); tt = TTFont(buf)
@@ -212,6 +218,10 @@ def user_caret_section(ctx):
         if gdef is not None and gdef.LigCaretList is not None:
             for g, lg in zip(gdef.LigCaretList.Coverage.glyphs, gdef.LigCaretList.LigGlyph):
                 got[g] = sorted((cv.Format, cv.Coordinate if cv.Format == 1 else cv.CaretValuePoint) for cv in lg.CaretValue)
+        if "classes" in v:
+            cls = dict(gdef.GlyphClassDef.classDefs) if gdef is not None and gdef.GlyphClassDef is not None else {}
+            if cls != {"f": 1, "i": 1, "f_i": 2, "f_f_i": 2}:
+                ctx.spec_failure(dict(case, compiled_classes=cls), "the user's GlyphClassDef was not left alone: compiled classes %r" % cls)
         if got != {k: sorted(x) for k, x in want.items()}:
             ctx.spec_failure(dict(case, compiled_carets={k: list(x) for k, x in got.items()}),
                              "ligature carets %r, expected %r (%s)" % (got, want, "the user's table defines carets: left alone" if ("pos" in v or "index" in v)
